@@ -31,7 +31,7 @@ SCHEDULES = ["real", "first", "last", "rr"]
 
 def cases(tier, seed):
     rng = np.random.default_rng([2, seed])
-    n = 720 if tier == "quick" else 24000
+    n = 720 if tier == "quick" else 66000
     out = []
     for j in range(n):
         cell_cls = planted.CELL_CLASSES[j % len(planted.CELL_CLASSES)]
@@ -162,7 +162,7 @@ def requirements(stats, tier):
         need.append("accepted occurrences for only %d of %d pattern classes" % (stats.nseen("accepted_pattern_class"), len(patterns.CLASSES)))
     if stats.nseen("accepted_pose") < len(planted.POSES):
         need.append("accepted occurrences for only %d pose classes" % stats.nseen("accepted_pose"))
-    if stats.get("searches") < (500 if tier == "quick" else 15000):
+    if stats.get("searches") < (500 if tier == "quick" else 45000):
         need.append("too few searches: %d" % stats.get("searches"))
     if stats.get("contract_eval.C01.in_domain") < stats.get("searches"):
         need.append("the search postcondition was evaluated fewer times than searches were made")
